@@ -1,22 +1,23 @@
 import BppModel.Tree
 import BppProofs.Props.C14
 /-!
-# C15 — tree container (src/Bpp/Graph/TreeGraphImpl.h on GlobalGraph)
+# C15 — tree container (src/Bpp/Graph/TreeGraphImpl.h on GlobalGraph): soundness of the cached validity
 
 Proved here, for all histories: the cached validity flag is **sound** — whenever `isValid_` is set,
-the single-visit traversal from the root (`isTree`, GlobalGraph.cpp:649) answers true on the
+the single-visit traversal from the root (`isTree`, GlobalGraph.cpp:653) answers true on the
 *current* graph — hence `isValid()` always answers what the traversal answers now, "at every
 moment and regardless of earlier queries".  Every mutating primitive of GlobalGraph ends with the
 virtual `topologyHasChanged_()`; the model (`BppModel/Tree.lean`, `T.lift`) resets the flag exactly
 when such a primitive has run; an operation that raises before touching anything leaves the graph
 unchanged (C14 `raises_unchanged`), so the flag may stay.
 
-Not proved (explored by the check against an independent reference tree; full statements for the record):
-* `isValid_iff  : isTree g = .ok true ↔ g is a tree spanning all nodes from the root`
-* `rootAt_spec  : valid t → rootAt n keeps the undirected edge set (ids, end points), makes n the
-                  unique father-less node and leaves the tree valid`   (false for unrooted trees: finding C15-rootAt-unrooted)
-* `father_sons_spec, leaves_under_spec` (false: finding C15-leaves-single-son), `subtree_spec`, `path_spec`, `edge_path_spec`
-* `mrca_spec    : valid rooted t → MRCA t S = deepest common ancestor`   (false: `mrca_witness`, finding C15-mrca-lockstep)
+The other clauses of the property:
+* `Props/C15Valid.lean`   — `isTree_iff`, `isValid_iff`: the traversal decides "tree spanning all nodes from the root"
+* `Props/C15Fuel.lean`    — the fuel of the model's recursions suffices
+* `Props/C15Queries.lean` — father / sons / branches / leaves-under / subtree / path / edge path / MRCA against the reference tree
+* `Props/C15RootAt.lean`  — `rootAt_spec` (rooted and unrooted trees)
+* `Props/C15Dag.lean`     — the DAG container: cache soundness, `isDA_iff_acyclic`
+* `Props/C15Obs.lean`, `Props/C15ObsReady.lean` — `setFather` / `addSon` with an edge object, `rootAt` keeps the associations
 -/
 namespace Bpp.C15
 open Bpp Bpp.Graph Bpp.Graph.T
@@ -141,6 +142,24 @@ theorem cacheSound_propagate (fuel : Nat) : ∀ (t : T) (n : Nat) (r : GOut Unit
         · cases hr
         · cases hr
 
+theorem cacheSound_orientStep (r : GOut Unit × T) (p : Nat × Nat) (h : CacheSound r.2) : CacheSound (T.orientStep r p).2 := by
+  unfold T.orientStep
+  apply cacheSound_andThen _ _ h
+  intro _ t' h'
+  split
+  · exact h'
+  · split
+    · exact h'
+    · split
+      · exact cacheSound_lift t' h' _
+      · exact h'
+
+theorem cacheSound_orientFold (rel : List (Nat × Nat)) : ∀ (r : GOut Unit × T), CacheSound r.2 →
+    CacheSound (rel.foldl T.orientStep r).2 := by
+  induction rel with
+  | nil => intro r h; exact h
+  | cons p rest ih => intro r h; exact ih _ (cacheSound_orientStep r p h)
+
 theorem cacheSound_rootAt (t : T) (h : CacheSound t) (n : Nat) (r : GOut Unit × T) (hr : t.rootAt n = .ok r) :
     CacheSound r.2 := by
   unfold T.rootAt at hr
@@ -155,15 +174,30 @@ theorem cacheSound_rootAt (t : T) (h : CacheSound t) (n : Nat) (r : GOut Unit ×
       simp only at hr
       split at hr
       · injection hr with hr; subst hr; exact h0
-      · have h1 := cacheSound_makeDirected t0 h0
-        have h2 := cacheSound_lift t0.makeDirected h1 (t0.makeDirected.g.setRoot n)
-        rcases hs : t0.makeDirected.setRoot n with ⟨o, t2⟩
-        have hs' : (t0.makeDirected.lift (t0.makeDirected.g.setRoot n)) = (o, t2) := hs
-        rw [hs'] at h2
-        rw [hs] at hr
-        cases o with
-        | ok u g' => exact cacheSound_propagate _ _ _ _ h2 hr
-        | exc g' => injection hr with hr; subst hr; exact h2
+      · split at hr
+        · have h2 := cacheSound_lift t0 h0 (t0.g.setRoot n)
+          rcases hs : t0.setRoot n with ⟨o, t2⟩
+          have hs' : (t0.lift (t0.g.setRoot n)) = (o, t2) := hs
+          rw [hs'] at h2
+          rw [hs] at hr
+          cases o with
+          | ok u g' => exact cacheSound_propagate _ _ _ _ h2 hr
+          | exc g' => injection hr with hr; subst hr; exact h2
+        · rcases hrel : T.relationsFrom t0.g (t0.g.nodes.length + 2) n n [] with rel | _ | _ | _ <;> rw [hrel] at hr <;> simp only at hr
+          · have h1 := cacheSound_makeDirected t0 h0
+            have h2 := cacheSound_lift t0.makeDirected h1 (t0.makeDirected.g.setRoot n)
+            rcases hs : t0.makeDirected.setRoot n with ⟨o, t2⟩
+            have hs' : (t0.makeDirected.lift (t0.makeDirected.g.setRoot n)) = (o, t2) := hs
+            rw [hs'] at h2
+            rw [hs] at hr
+            cases o with
+            | ok u g' =>
+              injection hr with hr; subst hr
+              exact cacheSound_orientFold rel _ h2
+            | exc g' => injection hr with hr; subst hr; exact h2
+          · injection hr with hr; subst hr; exact h0
+          · cases hr
+          · cases hr
     | false => injection hr with hr; subst hr; exact h0
   | exc => injection hr with hr; subst hr; exact h0
   | fuel => cases hr
@@ -188,6 +222,51 @@ theorem cacheSound_unRoot (t : T) (h : CacheSound t) (j : Bool) : CacheSound (t.
     · exact h
   · intro _ t' h'; exact cacheSound_makeUndirected t' h'
 
+theorem cacheSound_setFatherE (t : T) (h : CacheSound t) (n f e : Nat) : CacheSound (t.setFatherE n f e).2 := by
+  unfold T.setFatherE
+  split
+  · exact h
+  · split
+    · exact h
+    · apply cacheSound_touch
+      apply cacheSound_andThen
+      · split
+        · split
+          · exact h
+          · exact cacheSound_lift t h _
+        · exact h
+      · intro _ t' h'; exact cacheSound_lift t' h' _
+
+theorem cacheSound_removeSonsFold (n : Nat) (sons : List Nat) : ∀ (r : GOut Unit × T), CacheSound r.2 →
+    CacheSound (sons.foldl (fun acc s => T.andThen acc (fun _ t' => t'.removeSon n s)) r).2 := by
+  induction sons with
+  | nil => intro r h; exact h
+  | cons s rest ih =>
+    intro r h
+    apply ih
+    apply cacheSound_andThen _ _ h
+    intro _ t' h'
+    exact cacheSound_touch _ (cacheSound_lift t' h' _)
+
+theorem cacheSound_removeSons (t : T) (h : CacheSound t) (n : Nat) : CacheSound (t.removeSons n).2 := by
+  unfold T.removeSons
+  split
+  · exact h
+  · rename_i sons _
+    have := cacheSound_removeSonsFold n sons (.ok () t.g, t) h
+    simp only
+    split <;> exact this
+
+theorem cacheSound_getSubtree (t : T) (h : CacheSound t) (e : Bool) (n : Nat) : CacheSound (t.getSubtree e n).2 := by
+  unfold T.getSubtree
+  have h0 := cacheSound_isValid t h
+  rcases hv : t.isValid with ⟨v, t0⟩
+  rw [hv] at h0
+  simp only at h0 ⊢
+  split
+  · split <;> exact h0
+  all_goals exact h0
+
 /-- one operation keeps the cache sound -/
 theorem cacheSound_step (t : T) (h : CacheSound t) (op : TOp) : CacheSound (t.step op) := by
   cases op with
@@ -201,6 +280,9 @@ theorem cacheSound_step (t : T) (h : CacheSound t) (op : TOp) : CacheSound (t.st
   | setFather n f => exact cacheSound_setFather t h n f
   | addSon n s => exact cacheSound_touch _ (cacheSound_lift t h _)
   | removeSon n s => exact cacheSound_touch _ (cacheSound_lift t h _)
+  | setFatherE n f e => exact cacheSound_setFatherE t h n f e
+  | addSonE n s e => exact cacheSound_touch _ (cacheSound_lift t h _)
+  | removeSons n => exact cacheSound_removeSons t h n
   | rootAt n =>
     simp only [T.step]
     rcases hr : t.rootAt n with r | _ | _ | _
@@ -210,6 +292,7 @@ theorem cacheSound_step (t : T) (h : CacheSound t) (op : TOp) : CacheSound (t.st
     · exact h
   | unRoot j => exact cacheSound_unRoot t h j
   | isValid => exact cacheSound_isValid t h
+  | getSubtree e n => exact cacheSound_getSubtree t h e n
 
 /-- **cache_sound**: after any history of topology edits (node creations, links, unlinks, deletions,
 add son, set father, remove son, re-root, un-root, set root, direction changes) and validity
@@ -235,16 +318,5 @@ theorem isValid_is_isTree (d : Bool) (ops : List TOp) :
 theorem cacheSound_decidable (t : T) : CacheSound t ↔ (!t.valid || (T.isTree t.g == .ok true)) = true := by
   unfold CacheSound
   cases t.valid <;> simp
-
-/-! ## MRCA: the lock-step climb is wrong when depths differ (finding C15-mrca-lockstep) -/
-
-/-- 0 -> 1 -> 3, 0 -> 2 -/
-def mrcaTree : G := ((T.empty true).run [.createNode, .createNode, .createNode, .createNode, .link 0 1, .link 0 2, .link 1 3]).g
-
-/-- node 1 is the father of node 3, so their most recent common ancestor is 1; the code answers the root -/
-theorem mrca_witness : T.father mrcaTree 3 = some 1 ∧ T.mrca mrcaTree [1, 3] = .ok 0 := by decide
-
-/-- and with a repeated argument it raises -/
-theorem mrca_repeated_witness : T.mrca mrcaTree [3, 3] = .exc := by decide
 
 end Bpp.C15
